@@ -2,6 +2,7 @@
 //!
 //! stdin: one request per line, `<id>\t<mode>\t<text with \n and \t escaped>`; modes:
 //!   x  expand a derive input; reply status + canonical token string + split impl items + identifiers
+//!   h  canary: iteration order of a HashMap over comma-separated keys
 //!   t  re-tokenise a token string (used to compare with the real proc-macro backend)
 //! stdout: one JSON object per line.
 use std::io::{BufRead, Write};
@@ -166,6 +167,16 @@ fn main() {
         let id = parts.next().unwrap_or("");
         let mode = parts.next().unwrap_or("x");
         let text = unescape(parts.next().unwrap_or(""));
+        if mode == "h" {
+            // canary: iteration order of a std HashMap over the given keys (shows which hash seed is in effect)
+            let mut m = std::collections::HashMap::new();
+            for (i, k) in text.split(',').enumerate() {
+                m.insert(k.to_string(), i);
+            }
+            let order: Vec<String> = m.keys().cloned().collect();
+            writeln!(out, "{{\"id\":{},\"st\":\"ok\",\"raw\":{}}}", esc(id), esc(&order.join(","))).unwrap();
+            continue;
+        }
         if mode == "t" {
             match TokenStream::from_str(&text) {
                 Ok(t) => writeln!(out, "{{\"id\":{},\"st\":\"ok\",\"raw\":{}}}", esc(id), esc(&canon(t))).unwrap(),
